@@ -48,6 +48,17 @@ func verifYieldPoint() {
 	}
 }
 
+// VerifHot, when set, is called instead of VerifYield before a statement that performs an
+// atomic operation: where code synchronises through atomics, the interleavings that matter
+// sit between two of them, so the scheduler pre-empts there far more eagerly.
+var VerifHot func()
+
+func verifHotPoint() {
+	if f := VerifHot; f != nil {
+		f()
+	}
+}
+
 // VerifNoYield, when set, brackets a call that runs caller code under a lock of the
 // standard library (sync.Once.Do): a task parked in there would make every other task
 // that reaches the same Once block for real, behind the scheduler's back.
@@ -179,11 +190,77 @@ func main() {
 		fmt.Fprintln(os.Stderr, "astyield:", err)
 		os.Exit(2)
 	}
-	fmt.Printf("astyield: %d yield points, %d lock announcements, %d sort calls and %d map ranges bracketed in %s\n", nYield, nLock, nSort, nMapRange, dir)
+	fmt.Printf("astyield: %d yield points, %d lock announcements, %d sort calls and %d map ranges bracketed, %d hot points in %s\n", nYield, nLock, nSort, nMapRange, nHot, dir)
 }
 
 var info *types.Info
-var nSort, nMapRange int
+var nSort, nMapRange, nHot int
+
+var atomicMethods = map[string]bool{"Load": true, "Store": true, "Swap": true, "CompareAndSwap": true, "Add": true, "And": true, "Or": true}
+
+// hasAtomicOp: does the statement itself (not the bodies nested in it) call into
+// sync/atomic - a function of the package or a method of one of its types?
+func hasAtomicOp(s ast.Stmt) bool {
+	found := false
+	check := func(n ast.Node) {
+		if n == nil {
+			return
+		}
+		ast.Inspect(n, func(x ast.Node) bool {
+			switch c := x.(type) {
+			case *ast.FuncLit, *ast.BlockStmt:
+				return false
+			case *ast.CallExpr:
+				sel, ok := c.Fun.(*ast.SelectorExpr)
+				if !ok {
+					return true
+				}
+				if id, ok := sel.X.(*ast.Ident); ok && id.Name == "atomic" && id.Obj == nil {
+					found = true
+					return false
+				}
+				if atomicMethods[sel.Sel.Name] && info != nil {
+					if t := info.TypeOf(sel.X); t != nil && strings.Contains(t.String(), "sync/atomic.") {
+						found = true
+						return false
+					}
+				}
+			}
+			return true
+		})
+	}
+	switch t := s.(type) {
+	case *ast.ExprStmt:
+		check(t.X)
+	case *ast.AssignStmt:
+		for _, e := range t.Rhs {
+			check(e)
+		}
+	case *ast.ReturnStmt:
+		for _, e := range t.Results {
+			check(e)
+		}
+	case *ast.IfStmt:
+		if t.Init != nil {
+			found = found || hasAtomicOp(t.Init)
+		}
+		check(t.Cond)
+	case *ast.SwitchStmt:
+		if t.Init != nil {
+			found = found || hasAtomicOp(t.Init)
+		}
+		check(t.Tag)
+	case *ast.ForStmt:
+		check(t.Cond)
+	case *ast.IncDecStmt:
+		check(t.X)
+	case *ast.DeferStmt:
+		check(t.Call)
+	case *ast.GoStmt:
+		check(t.Call)
+	}
+	return found
+}
 
 func hasBuildLine(cg *ast.CommentGroup) bool {
 	for _, c := range cg.List {
@@ -374,7 +451,7 @@ func method(recv ast.Expr, name string) ast.Expr {
 func instrument(list []ast.Stmt, nYield, nLock *int) []ast.Stmt {
 	var out []ast.Stmt
 	for i, s := range list {
-		if isCallTo(s, "verifYieldPoint") || isCallTo(s, "verifAutoLock") {
+		if isCallTo(s, "verifYieldPoint") || isCallTo(s, "verifAutoLock") || isCallTo(s, "verifHotPoint") {
 			out = append(out, s)
 			continue
 		}
@@ -424,7 +501,12 @@ func instrument(list []ast.Stmt, nYield, nLock *int) []ast.Stmt {
 			out = append(out, s)
 			continue
 		}
-		out = append(out, call("verifYieldPoint"))
+		if hasAtomicOp(s) {
+			out = append(out, call("verifHotPoint"))
+			nHot++
+		} else {
+			out = append(out, call("verifYieldPoint"))
+		}
 		*nYield++
 		out = append(out, s)
 	}
